@@ -239,6 +239,7 @@ Record rcase := RC { cA : list (list Z); cn : nat; cb : sv Z; cidx : list nat; c
   cer : option (list nat); cxs : list (list Z); cfs : list (list Z); cus : list (list Z); cB : list (list Z);
   eA : list (list Z); eb : list Z; erestrict : list (list Z); erhs : list (list Z);
   eextend : list (list Z); ecomplete : list (list Z); eRB : list (list Z) }.
+Definition ctype := rcase.
 Definition ok (c : rcase) : bool :=
   let s := rls_init Z 0%Z Z.add Z.mul Z.sub (cA c) (cn c) (cb c) (cidx c) (cvals c) (cer c) in
   zll (r_A Z s) (eA c) && zl (r_b Z s) (eb c)
@@ -251,7 +252,8 @@ Definition ok (c : rcase) : bool :=
 
 HEADER_SLICE = HEADER + '''
 (* (ravel?, ax, idx, shape, flip, expected raveled, expected multi) *)
-Definition ok (c : bool * nat * Z * list nat * list bool * option (list nat) * option (list (list nat))) : bool :=
+Definition ctype := (bool * nat * Z * list nat * list bool * option (list nat) * option (list (list nat)))%type.
+Definition ok (c : ctype) : bool :=
   let '(rv, ax, idx, shape, flip, e1, e2) := c in
   if rv then oeqb nl (slice_indices_z ax idx shape flip) e1
   else oeqb nll (slice_multi_z ax idx shape flip) e2.
@@ -259,7 +261,8 @@ Definition ok (c : bool * nat * Z * list nat * list bool * option (list nat) * o
 
 HEADER_BD = HEADER + '''
 (* (shape, bdspec, flip, expected) for boundary_dofs / boundary_cells *)
-Definition ok (c : list nat * bdspec * list bool * option (list nat)) : bool :=
+Definition ctype := (list nat * bdspec * list bool * option (list nat))%type.
+Definition ok (c : ctype) : bool :=
   let '(shape, b, flip, e) := c in oeqb nl (boundary_slice shape b flip) e.
 '''
 
@@ -267,7 +270,8 @@ HEADER_BC = HEADER + '''
 Definition get (o : option (list nat)) : list nat := match o with Some l => l | None => [] end.
 (* (shape, [(bdspec, ncomp)], p2g per condition (empty = identity), expected local index lists,
     value ids of the concatenated local values, combine?, expected (idx, value ids)) *)
-Definition ok (c : list nat * list (bdspec * nat) * list (list nat) * list (list nat) * list nat * bool * (list nat * list nat)) : bool :=
+Definition ctype := (list nat * list (bdspec * nat) * list (list nat) * list (list nat) * list nat * bool * (list nat * list nat))%type.
+Definition ok (c : ctype) : bool :=
   let '(shape, conds, p2gs, elocal, vids, comb, (eidx, evals)) := c in
   let locals := map (fun bc => dirichlet_indices shape (fst bc) (snd bc)) conds in
   forallb (fun o => match o with Some _ => true | None => false end) locals
@@ -278,7 +282,8 @@ Definition ok (c : list nat * list (bdspec * nat) * list (list nat) * list (list
         let r := combine_flat nat 0 (concat glob) vids in nl (fst r) eidx && nl (snd r) evals
       else nl (concat glob) eidx && nl vids evals).
 (* several patches: shapes differ per condition *)
-Definition okmp (c : list (list nat * (bdspec * nat) * list nat * list nat) * list nat * (list nat * list nat)) : bool :=
+Definition ctypemp := (list (list nat * (bdspec * nat) * list nat * list nat) * list nat * (list nat * list nat))%type.
+Definition okmp (c : ctypemp) : bool :=
   let '(conds, vids, (eidx, evals)) := c in
   let locals := map (fun q => let '(shape, bc, p2g, eloc) := q in dirichlet_indices shape (fst bc) (snd bc)) conds in
   forallb (fun o => match o with Some _ => true | None => false end) locals
@@ -289,13 +294,16 @@ Definition okmp (c : list (list nat * (bdspec * nat) * list nat * list nat) * li
 
 HEADER_COMB = HEADER + '''
 (* combine_bcs on value ids; _drop_nans with None = nan *)
-Definition okc (c : list (list nat * list nat) * (list nat * list nat)) : bool :=
+Definition ctypec := (list (list nat * list nat) * (list nat * list nat))%type.
+Definition okc (c : ctypec) : bool :=
   let '(bcs, (eidx, evals)) := c in
   let r := combine_bcs nat 0 bcs in nl (fst r) eidx && nl (snd r) evals.
-Definition okd (c : list nat * list (option nat) * (list nat * list nat)) : bool :=
+Definition ctyped := (list nat * list (option nat) * (list nat * list nat))%type.
+Definition okd (c : ctyped) : bool :=
   let '(idx, vals, (eidx, evals)) := c in
   let r := drop_nans nat idx vals in nl (fst r) eidx && nl (snd r) evals.
-Definition oki (c : list nat * bdspec * option (list nat)) : bool :=
+Definition ctypei := (list nat * bdspec * option (list nat))%type.
+Definition oki (c : ctypei) : bool :=
   let '(shape, b, e) := c in oeqb nl (initial_indices shape b) e.
 '''
 
@@ -707,6 +715,24 @@ def combine_oracle(parts):
     return ks, [first[k] for k in ks]
 
 
+def one_value_per_dof(parts, idx, vals):
+    """The property for a combination: every dof of the input exactly once (increasing), with one of
+    the values given for it.  Returns None or a description."""
+    given = {}
+    for pidx, pvals in parts:
+        for i, v in zip(pidx, pvals):
+            given.setdefault(i, set()).add(float.fromhex(v) if isinstance(v, str) else float(v))
+    if len(idx) != len(vals):
+        return 'indices and values differ in length'
+    if idx != sorted(given):
+        return 'dofs %s returned, the conditions constrain %s' % (idx[:30], sorted(given)[:30])
+    for i, v in zip(idx, vals):
+        v = float.fromhex(v) if isinstance(v, str) else float(v)
+        if v not in given[i]:
+            return 'dof %d gets the value %r which none of the conditions gives it (%s)' % (i, v, sorted(given[i]))
+    return None
+
+
 def vids_of(parts, extra):
     """dense ids of float values (hex strings): equal floats <-> equal ids"""
     ids = {}
@@ -720,13 +746,13 @@ def vids_of(parts, extra):
 
 # ---------------------------------------------------------------------------
 
-def run_case_files(ctx, prefix, header, okname, texts, chunk=250):
+def run_case_files(ctx, prefix, header, okname, texts, chunk=250, ctype='ctype'):
     """texts: list of Coq terms (one per case).  Returns indices of disagreeing cases."""
     files = []
     spans = []
     for n, i in enumerate(range(0, len(texts), chunk)):
         part = texts[i:i + chunk]
-        body = header + 'Definition cases := [\n' + ';\n'.join(part) + '].\nEval vm_compute in bad %s 0 cases.\n' % okname
+        body = header + 'Definition cases : list %s := [\n' % ctype + ';\n'.join(part) + '].\nEval vm_compute in bad %s 0 cases.\n' % okname
         files.append(('C10_%s_%03d' % (prefix, n), body))
         spans.append(i)
     badidx = []
@@ -893,15 +919,13 @@ def run(ctx):
             if bad:
                 failed = True
                 ctx.report('impl:bc:%s:%s:%s' % (bad[0], tag, c['geo']['name']), bad[1], {'case': c, 'impl': {kk: r[kk] for kk in ('local', 'idx', 'vals')}})
-        # combined result: one value per dof, first condition wins
-        if c['call'] == 'one':
-            eidx, evals = r['local'][0]
-        else:
-            eidx, evals = combine_oracle(r['local'])
-        if r['idx'] != eidx or [float.fromhex(v) for v in r['vals']] != [float.fromhex(v) for v in evals]:
+        # combined result: one value per dof (which of several values wins is the model's business)
+        why = one_value_per_dof(r['local'], r['idx'], r['vals']) if c['call'] != 'one' else (
+            None if (r['idx'], r['vals']) == tuple(r['local'][0]) else 'compute_dirichlet_bc is not deterministic')
+        if why:
             failed = True
-            ctx.report('impl:bcs:combine:%s' % c['call'], 'compute_dirichlet_bcs does not return each dof of the requested faces once with the value '
-                       'of its first condition: got %s' % (r['idx'][:30],), {'case': c, 'impl': {kk: r[kk] for kk in ('local', 'idx', 'vals')}})
+            ctx.report('impl:bcs:combine:%s' % c['call'], 'compute_dirichlet_bcs does not keep exactly one of the given values per dof of the '
+                       'requested faces: ' + why, {'case': c, 'impl': {kk: r[kk] for kk in ('local', 'idx', 'vals')}})
         lv, ev = vids_of([l[1] for l in r['local']], r['vals'])
         texts.append('(%s, %s, %s, %s, %s, %s, (%s, %s))' % (
             nl(shape), clist(['(%s, %d)' % (cbd(bs), ncomp_of(g)) for bs, g in c['conds']]), nll([[] for _ in c['conds']]),
@@ -921,13 +945,13 @@ def run(ctx):
         if r['status'] != 'Ok':
             ctx.report('impl:combine:raises', 'combine_bcs raised %s' % r['status'], {'case': c, 'impl': r})
             continue
-        eidx, evals = combine_oracle(c['bcs'])
-        if r['idx'] != eidx or r['vals'] != evals:
-            ctx.report('impl:combine:not-one-first-value-per-dof', 'combine_bcs(%s) = (%s, %s); one value per dof with the first occurrence is (%s, %s)'
-                       % (c['bcs'], r['idx'], r['vals'], eidx, evals), {'case': c, 'impl': r})
+        why = one_value_per_dof(c['bcs'], r['idx'], r['vals'])
+        if why:
+            ctx.report('impl:combine:not-one-value-per-dof', 'combine_bcs(%s) = (%s, %s): %s' % (c['bcs'], r['idx'], r['vals'], why),
+                       {'case': c, 'impl': r})
         lv, ev = vids_of([b[1] for b in c['bcs']], r['vals'])
         texts.append('(%s, (%s, %s))' % (clist(['(%s, %s)' % (nl(b[0]), nl(v)) for b, v in zip(c['bcs'], lv)]), nl(r['idx']), nl(ev)))
-    for b in run_case_files(ctx, 'comb', HEADER_COMB, 'okc', texts, 300):
+    for b in run_case_files(ctx, 'comb', HEADER_COMB, 'okc', texts, 300, 'ctypec'):
         ndis += 1
         ctx.broken.append('correspondence C10 model<->impl (combine_bcs) differs on %s' % comb[b])
         ctx.report('tie:combine', 'model and implementation of combine_bcs differ', {'case': comb[b], 'impl': res['combine'][b]}, found_input=False)
@@ -944,7 +968,7 @@ def run(ctx):
                 ids.setdefault(v, len(ids) + 1)
         texts.append('(%s, %s, (%s, %s))' % (nl(c['idx']), clist(['None' if v is None else '(Some %d)' % ids[v] for v in c['vals']]),
                                             nl(r['idx']), nl([ids.get(v, 0) for v in r['vals']])))
-    for b in run_case_files(ctx, 'dn', HEADER_COMB, 'okd', texts, 300):
+    for b in run_case_files(ctx, 'dn', HEADER_COMB, 'okd', texts, 300, 'ctyped'):
         ndis += 1
         ctx.broken.append('correspondence C10 model<->impl (_drop_nans) differs')
         ctx.report('tie:dropnans', 'model and implementation of _drop_nans differ', {'case': dn[b]}, found_input=False)
@@ -968,7 +992,7 @@ def run(ctx):
         if bad:
             ctx.report('impl:ic:%s:%s-interval' % (bad[0], unit), bad[1], {'case': c, 'impl': {kk: r[kk] for kk in ('idx', 'vals')}})
         texts.append('(%s, %s, %s)' % (nl(shape), cbd(c['bdspec']), copt(r['idx'], nl)))
-    for b in run_case_files(ctx, 'ic', HEADER_COMB, 'oki', texts, 300):
+    for b in run_case_files(ctx, 'ic', HEADER_COMB, 'oki', texts, 300, 'ctypei'):
         ndis += 1
         ctx.broken.append('correspondence C10 model<->impl (compute_initial_condition_01 indices) differs')
         ctx.report('tie:ic', 'model and implementation of compute_initial_condition_01 differ in the index array', {'case': ic[b]}, found_input=False)
@@ -984,10 +1008,10 @@ def run(ctx):
         if r['shapes'] != shapes:
             continue
         glob = [([r['p2g'][p][i] for i in l[0]], l[1]) for (p, bs, g), l in zip(c['conds'], r['local'])]
-        eidx, evals = combine_oracle(glob)
-        if r['idx'] != eidx or [float.fromhex(v) for v in r['vals']] != [float.fromhex(v) for v in evals]:
-            ctx.report('impl:mp:glued-combine', 'Multipatch.compute_dirichlet_bcs does not return every glued dof of the faces once with its first value: %s'
-                       % (r['idx'][:30],), {'case': c, 'impl': r})
+        why = one_value_per_dof(glob, r['idx'], r['vals'])
+        if why:
+            ctx.report('impl:mp:glued-combine', 'Multipatch.compute_dirichlet_bcs does not return every glued dof of the faces once with one of '
+                       'its values: ' + why, {'case': c, 'impl': r})
         if any(not (0 <= i < r['numdofs']) for i in r['idx']):
             ctx.report('impl:mp:range', 'global index outside range(numdofs)', {'case': c, 'impl': r})
         lv, ev = vids_of([l[1] for l in r['local']], r['vals'])
@@ -995,7 +1019,7 @@ def run(ctx):
                        for (p, bs, g), l in zip(c['conds'], r['local'])])
         texts.append('(%s, %s, (%s, %s))' % (conds, nl([v for l in lv for v in l]), nl(r['idx']), nl(ev)))
         owners.append(k)
-    for b in run_case_files(ctx, 'mp', HEADER_BC, 'okmp', texts, 200):
+    for b in run_case_files(ctx, 'mp', HEADER_BC, 'okmp', texts, 200, 'ctypemp'):
         ndis += 1
         k = owners[b]
         ctx.broken.append('correspondence C10 model<->impl (Multipatch.compute_dirichlet_bcs) differs on %s' % mp[k])
